@@ -90,9 +90,13 @@ func init() {
 					u = append(u, fmt.Sprintf("%s/used>=%d", c07Shapes[s].Name, used))
 				}
 			}
-			return u
+			return append(u, siteUnits("C07")...)
 		},
 		Run: func(ctx *core.Ctx, unit int) {
+			if n := 4 * len(c07Shapes); unit >= n {
+				siteRun(ctx, "C07", unit-n)
+				return
+			}
 			shape, ubase := unit/4, (unit%4)*8
 			if ubase == 8 {
 				// one Restorer restores an earlier file (every shape, with and without an alias override on
@@ -168,6 +172,9 @@ func init() {
 			}
 		},
 		Check: func(c core.Case) core.Outcome {
+			if sc, ok := siteDecode(c); ok {
+				return siteCheck(sc, nil)
+			}
 			var cs c07Case
 			if err := json.Unmarshal(c, &cs); err != nil {
 				panic(err)
